@@ -109,18 +109,21 @@ def build_harness(race=False):
 # ---------------------------------------------------------------------------
 # proof status
 # ---------------------------------------------------------------------------
-def proof_status(prop_id, theorems):
+def proof_status(prop_id, theorems, extra_modules=()):
     """Print Assumptions for every theorem of Props/<id>.v.
     Returns dict name -> {'ok':bool,'axioms':[...]} and the raw log."""
-    vo = os.path.join(COQ, "Props", prop_id + ".vo")
     res = {}
-    if not os.path.exists(vo):
-        for t in theorems:
-            res[t] = {"ok": False, "axioms": [], "why": "Props/%s.vo not built" % prop_id}
-        return res, "missing " + vo
+    for m in [prop_id] + list(extra_modules):
+        vo = os.path.join(COQ, "Props", m + ".vo")
+        if not os.path.exists(vo):
+            for t in theorems:
+                res[t] = {"ok": False, "axioms": [], "why": "Props/%s.vo not built" % m}
+            return res, "missing " + vo
     tmp = os.path.join(COQ, "Props", "Tmp_assump_%s_%d.v" % (prop_id, os.getpid()))
     with open(tmp, "w") as f:
         f.write("From IonV Require Import Props.%s.\n" % prop_id)
+        for m in extra_modules:
+            f.write("From IonV Require Import Props.%s.\n" % m)
         for t in theorems:
             f.write('Goal True. idtac "@@BEGIN %s". exact I. Qed.\n' % t)
             f.write("Print Assumptions %s.\n" % t)
